@@ -117,6 +117,35 @@ CHECKS = {
              "compared per slot with the formula written on binary128; a removed relation is reported absent, one that no longer compiles is a violation.",
         note="Bound 4 ulps (4*(ulp+Delta) for rows that subtract).",
         ref="3/C18"),
+    "C02": dict(
+        technique="runtime monitor: cross-checking oracle (every conversion entry point against the scalar conversion, component by component) with byte comparison of arguments of copying forms",
+        text="For every unit type all ordered unit pairs are driven through the copying and in-place free functions on scalars, "
+             "arrays, std::vector and the four shapes with pairwise distinct components; compile-time conversions are instantiated for "
+             "every declared unit via compiler reflection; for every dimensional quantity type and unit, construction, Value(), "
+             "Value(unit), read-back, StaticValue<unit> and all Create<unit> overloads must agree with the scalar conversion within one ulp.",
+        note="The scalar PhQ::Convert is the oracle (tied to truth by C01); printed forms in a unit are observed by C15.",
+        ref="3/C02"),
+    "C14": dict(
+        technique="runtime monitor: lexicographic tuple-model oracle on tie-forcing grids (all pairs for <=3 components), hash equality, transitivity on triples, std::set/unordered_set round trips",
+        text="For the 92 quantity types, the four vector/tensor types, the three model classes and Dimensions, objects built from "
+             "{-inf,-2,-0,+0,1,2,+inf} grids are compared with all six operators against a lexicographic model on the stored values; "
+             "equal objects must hash equally and shuffled multisets must round-trip through ordered and unordered containers.",
+        note="NaN values are outside the property; directions are judged on the value their constructor stores.",
+        ref="3/C14"),
+    "C16": dict(
+        technique="runtime monitor: per-slot static_cast oracle, bit-exact, over all converting constructors and assignments and all 6 ordered numeric-type pairs",
+        text="Every converting constructor and converting assignment of 96 types is exercised for all six ordered pairs of numeric types "
+             "with pairwise distinct components including values that round, overflow or become subnormal when narrowed; every slot "
+             "must equal the static_cast bit for bit, widening then narrowing must be the identity, directions must stay unit vectors within 2 ulps of the cast.",
+        note="Absent converting members are listed in the evidence.",
+        ref="3/C16"),
+    "C17": dict(
+        technique="runtime monitor: layout facts read from type traits at run time plus byte-pattern, memcpy and accessor probes (also run under ASan/UBSan by C20)",
+        text="All 276 instantiations: size, alignment, trivial copyability, standard layout; 0xA5-filled buffers prove every value byte "
+             "of every slot is written by construction and sits at offset i*sizeof(T); arrays of quantities are copied to arrays of "
+             "numbers and back; Zero() is all-zero bytes; SetValue/MutableValue write exactly the stored value.",
+        note="Exhaustive over the finite space of instantiations.",
+        ref="3/C17"),
 }
 
 PENDING = {}
